@@ -139,7 +139,63 @@ def run(repo, rep, tier):
         writes_memo[f.fq] = w
         return w
 
+    MUTATORS_OF_OBJECTS = ('update', 'update_existing', 'pop', 'clear',
+                           'setdefault', 'append', 'extend', 'remove',
+                           'insert', 'popitem', '__setitem__', '__delitem__')
+
+    def borrowed_names(f):
+        """local names bound to the repository's own object
+        (get/iter_values with copy=False): mutating them IS a repository
+        write"""
+        out = set()
+        for n in ast.walk(f.node):
+            call = tgt = None
+            if isinstance(n, ast.Assign) and isinstance(n.value, ast.Call):
+                call, tgt = n.value, n.targets[0]
+            elif isinstance(n, (ast.For, ast.comprehension)) and \
+                    isinstance(n.iter, ast.Call):
+                call, tgt = n.iter, n.target
+            if call is None or not isinstance(call.func, ast.Attribute) or \
+                    call.func.attr not in ('get', 'iter_values'):
+                continue
+            k = [kw.value for kw in call.keywords if kw.arg == 'copy']
+            if k and norm(k[0]) in ('False', 'None') and \
+                    isinstance(tgt, ast.Name):
+                out.add(tgt.id)
+        return out
+
+    def mutates_borrowed(f, st):
+        names = borrowed_names(f)
+        if not names:
+            return False
+        tg = []
+        if isinstance(st, ast.Assign):
+            tg = st.targets
+        elif isinstance(st, (ast.AugAssign, ast.AnnAssign)):
+            tg = [st.target]
+        elif isinstance(st, ast.Delete):
+            tg = st.targets
+        for t in tg:
+            base = t
+            while isinstance(base, (ast.Attribute, ast.Subscript)):
+                base = base.value
+            if base is not t and isinstance(base, ast.Name) and \
+                    base.id in names:
+                return True
+        for c in ast.walk(st):
+            if isinstance(c, ast.Call) and \
+                    isinstance(c.func, ast.Attribute) and \
+                    c.func.attr in MUTATORS_OF_OBJECTS:
+                base = c.func.value
+                while isinstance(base, (ast.Attribute, ast.Subscript)):
+                    base = base.value
+                if isinstance(base, ast.Name) and base.id in names:
+                    return True
+        return False
+
     def stmt_writes(f, st):
+        if mutates_borrowed(f, st):
+            return True
         for c in ast.walk(st):
             if isinstance(c, ast.Call):
                 if is_write_call(c):
